@@ -251,6 +251,24 @@ func (d *Decoder) unmarshal(val reflect.Value, tagType byte) error {
 			default:
 				return errors.New("cannot parse TagByteArray to slice of" + ve.String())
 			}
+		} else if vt.Kind() == reflect.Array {
+			ek := vt.Elem().Kind()
+			if ek != reflect.Bool && ek != reflect.Int8 && ek != reflect.Uint8 {
+				return errors.New("cannot parse TagByteArray to " + vt.String())
+			}
+			if vt.Len() != int(aryLen) {
+				return errors.New("cannot parse TagByteArray to " + vt.String() + ", length not match")
+			}
+			for i := range ba {
+				switch elem := val.Index(i); ek {
+				case reflect.Bool:
+					elem.SetBool(ba[i] != 0)
+				case reflect.Int8:
+					elem.SetInt(int64(int8(ba[i])))
+				case reflect.Uint8:
+					elem.SetUint(uint64(ba[i]))
+				}
+			}
 		} else if vt.Kind() == reflect.Interface {
 			val.Set(reflect.ValueOf(ba))
 		} else {
@@ -306,12 +324,17 @@ func (d *Decoder) unmarshal(val reflect.Value, tagType byte) error {
 		vt := val.Type() // receiver must be []int or []int64
 		if vt.Kind() == reflect.Interface {
 			vt = reflect.TypeOf([]int64{}) // pass
-		} else if vt.Kind() != reflect.Slice {
+		} else if vt.Kind() == reflect.Array && vt.Len() != int(aryLen) {
+			return errors.New("cannot parse TagLongArray to " + vt.String() + ", length not match")
+		} else if k := vt.Kind(); k != reflect.Slice && k != reflect.Array {
 			return errors.New("cannot parse TagLongArray to " + vt.String() + ", it must be a slice")
 		}
+		buf := val
 		switch vt.Elem().Kind() {
 		case reflect.Int64:
-			buf := reflect.MakeSlice(vt, int(aryLen), int(aryLen))
+			if vt.Kind() == reflect.Slice {
+				buf = reflect.MakeSlice(vt, int(aryLen), int(aryLen))
+			}
 			for i := 0; i < int(aryLen); i++ {
 				value, err := d.readInt64()
 				if err != nil {
@@ -319,9 +342,10 @@ func (d *Decoder) unmarshal(val reflect.Value, tagType byte) error {
 				}
 				buf.Index(i).SetInt(value)
 			}
-			val.Set(buf)
 		case reflect.Uint64:
-			buf := reflect.MakeSlice(vt, int(aryLen), int(aryLen))
+			if vt.Kind() == reflect.Slice {
+				buf = reflect.MakeSlice(vt, int(aryLen), int(aryLen))
+			}
 			for i := 0; i < int(aryLen); i++ {
 				value, err := d.readInt64()
 				if err != nil {
@@ -329,9 +353,11 @@ func (d *Decoder) unmarshal(val reflect.Value, tagType byte) error {
 				}
 				buf.Index(i).SetUint(uint64(value))
 			}
-			val.Set(buf)
 		default:
 			return errors.New("cannot parse TagLongArray to " + vt.String())
+		}
+		if vt.Kind() == reflect.Slice {
+			val.Set(buf)
 		}
 
 	case TagList:
